@@ -41,14 +41,18 @@ def delimStep (d : Nat) (buf : Bytes) (b : Nat) : Bytes × List Bytes :=
 def CR : Nat := 13
 def PKE : Nat := 69
 
-/-- what PKONE `_parse_msg` does with one frame: empty frames are dropped, `msg.decode()` raises on a frame that is not
-UTF-8 (known finding), everything else goes to the ignore list / `process_received_message` -/
+/-- what PKONE `_parse_msg` does with one frame: empty frames are dropped, a frame that is not UTF-8 is skipped with a
+warning, everything else goes to the ignore list / `process_received_message`.  There is no raising outcome. -/
 inductive PObs
-  | empty | undecodable | msg (f : Bytes)
+  | empty | skipped | msg (f : Bytes)
   deriving DecidableEq, Repr
 
 def pkDeliver (f : Bytes) : PObs :=
-  if f.isEmpty then .empty else if f.any (fun b => 128 ≤ b) then .undecodable else .msg f
+  if f.isEmpty then .empty else if f.any (fun b => 128 ≤ b) then .skipped else .msg f
+
+/-- `_parse_msg(chunk)`: carried bytes and what happened to each completed frame -/
+def pkRun (buf : Bytes) (chunk : Bytes) : Bytes × List PObs :=
+  ((feed (delimStep 69) buf chunk).1, (feed (delimStep 69) buf chunk).2.map pkDeliver)
 
 /-! ## OPP: transcription of `_parse_msg` -/
 
@@ -273,7 +277,10 @@ def fastDispatch (f : Bytes) : FObs :=
     else if h = hOpen then (match parseHex rest with | some n => .opened n | none => .skipped)
     else if h = hSA then
       (match splitAll 44 rest with
-       | [_, d] => (match hexBytes d with | some bs => .report (saBits bs) | none => .skipped)
+       | [c, d] =>
+         (match parseHex c, hexBytes d with
+          | some k, some bs => if bs.length = k then .report (saBits bs) else .skipped   -- announced byte count
+          | _, _ => .skipped)
        | _ => .skipped)
     else .noproc
 
@@ -551,7 +558,7 @@ def driverStep (s : DSt) (line : String) : DSt × String :=
     | some b =>
       let (buf, frames) := feed (delimStep PKE) s.pk b
       ({ s with pk := buf }, words (frames.map (fun f => match pkDeliver f with
-          | .empty => "e" | .undecodable => "und" | .msg g => "m" ++ toHex g) ++ ["buf=" ++ toHex buf]))
+          | .empty => "e" | .skipped => "und" | .msg g => "m" ++ toHex g) ++ ["buf=" ++ toHex buf]))
     | none => (s, "bad-op")
   | ["card", kind, a] =>
     match a.toNat? with
